@@ -28,6 +28,11 @@ TEMPLATES = [
     # statements carrying inline directives that do not change what runs (two in a row / one alone)
     ('inlinedir', ['T({k})  # xdoctest: +ELLIPSIS']),
     ('inlinedir2', ['T({k})  # xdoctest: +ELLIPSIS', 'T({k}.5)  # xdoctest: -NORMALIZE_REPR', 'T({k}.7)']),
+    # output / string content that looks like a google section header
+    ('printtag',  ["print('Returns:'); T({k})"]),
+    ('mstringtag', ["g{k} = T({k}, '''", "Args:", "    ''')"]),
+    # a comment, a blank line, then code - all in one part
+    ('blankprompt', ['# remark {k}', '', 'b{k} = T({k}, 3)']),
     ('aug',       ['w = 0', 'w += T({k}, 1)']),
     ('import',    ['import os as o{k}; T({k})']),
     ('tcomment',  ['T({k})  # trailing comment']),
@@ -61,7 +66,7 @@ TEMPLATES = [
     ('raise',     ['PX({k})']),
 ]
 TEMPLATE = dict(TEMPLATES)
-STRING_TEMPLATES = {'mstring'}
+STRING_TEMPLATES = {'mstring', 'mstringtag'}
 
 
 class _NV(object):
@@ -90,6 +95,7 @@ def stmts_of(code_lines):
     if not starts:
         return [code_lines]
     starts = sorted(set(starts))
+    starts[0] = 0            # comment / blank lines in front of the first statement belong to it
     out = []
     for a, b in zip(starts, starts[1:] + [len(code_lines)]):
         out.append(code_lines[a:b])
@@ -110,6 +116,8 @@ def is_compound(stmt_lines):
 def render_stmt(lines, style):
     if style == 'chev':
         return ['>>> ' + l if l else '>>>' for l in lines]
+    if style == 'chevb':     # a blank line of the statement written as a prompt followed only by blanks
+        return ['>>> ' + l if l else '>>>     ' for l in lines]
     if style in ('dots', 'dotst'):
         out = ['>>> ' + lines[0]] + ['... ' + l if l else '...' for l in lines[1:]]
         if style == 'dotst':
@@ -121,11 +129,15 @@ def render_stmt(lines, style):
 
 
 def styles_for(name):
+    if name == 'blankprompt':
+        return ['chev', 'chevb']       # '...' never starts a statement
     st = stmts_of(instantiate(name, 1))
     multi = any(len(s) > 1 for s in st)
     if not multi:
         return ['chev']
     out = ['chev', 'dots']
+    if any('' in s for s in st):
+        out.append('chevb')
     if any(len(s) > 1 and is_compound(s) for s in st):
         out.append('dotst')
     if name in STRING_TEMPLATES:
